@@ -191,6 +191,28 @@ func runC10(c *mon.Ctx) {
 				})
 				continue
 			}
+			if sc.s.t.StateRes != 1 && sr.Chance(0.2) && len(sc.stateSets) >= 2 {
+				// state sets need not be fork tips: after a merge a server holds the resolved state of both sides. One set
+				// takes over another set's event for some key; its own event for that key stays behind in the auth chains
+				// of what it sent later, i.e. in the auth difference, while the key itself is no longer in conflict.
+				i := sr.Intn(len(sc.stateSets))
+				j := (i + 1 + sr.Intn(len(sc.stateSets)-1)) % len(sc.stateSets)
+				from := map[stKey]gmsl.PDU{}
+				for _, p := range sc.stateSets[j] {
+					from[stKey{p.Type(), *p.StateKey()}] = p
+				}
+				mixed := append([]gmsl.PDU{}, sc.stateSets[i]...)
+				for _, idx := range sr.Perm(len(mixed)) {
+					p := mixed[idx]
+					if q := from[stKey{p.Type(), *p.StateKey()}]; q != nil && q.EventID() != p.EventID() && p.Type() != "m.room.create" {
+						mixed[idx] = q
+						break
+					}
+				}
+				sets := append([][]gmsl.PDU{}, sc.stateSets...)
+				sets[i] = mixed
+				sc.stateSets = sets
+			}
 			rejected := map[string]bool{}
 			if sr.Chance(0.3) {
 				for i := sr.Range(1, 2); i > 0; i-- {
